@@ -7,7 +7,7 @@ d=$(mktemp -d /tmp/ts_XXXXXX)
 cp -r /repo/src $d/src
 ( cd $d && patch -p1 -s < $patch ) || { echo "patch failed"; rm -rf $d; exit 3; }
 cd /verif
-VERIF_SEED=$seed VERIF_REPO_SRC=$d/src /venv/bin/python run_check.py $prop --tier $tier 2>&1 | grep -E "^VIOLATION|key=|detail=|^C[0-9]+ tier|INCONCLUSIVE|KNOWN" | head -${LINES_MAX:-12}
+VERIF_NO_EVIDENCE=1 VERIF_SEED=$seed VERIF_REPO_SRC=$d/src /venv/bin/python run_check.py $prop --tier $tier 2>&1 | grep -E "^VIOLATION|key=|detail=|^C[0-9]+ tier|INCONCLUSIVE|KNOWN" | head -${LINES_MAX:-12}
 rc=${PIPESTATUS[0]}
 rm -rf $d
 exit $rc
